@@ -308,19 +308,14 @@ def Stream.startMessageRead (s : Stream) (w : List WireFrame) : Except Err (Stre
     | .error e => .error e
     | .ok (s1, w1) => .ok ({ s1 with inMessage := true, bytesRead := 0 }, w1)
 
-def Stream.readMessageBytes (s : Stream) (n : Nat) (w : List WireFrame) :
-    Except Err (Stream × Bytes × List WireFrame) :=
+/-- `ReadMessageBytes`: up to `n` bytes of the current message; at its end, `io.EOF`
+    (fix D15: it never reads into the next message). -/
+def Stream.readMessageBytes (s : Stream) (n : Nat) : Except Err (Stream × Bytes) :=
   if !s.inMessage then .error .state
+  else if s.recvBuf.length - s.bytesRead = 0 then .error .eof
   else
-    let step (s : Stream) (w : List WireFrame) : Stream × Bytes × List WireFrame :=
-      let avail := s.recvBuf.length - s.bytesRead
-      let k := min n avail
-      ({ s with bytesRead := s.bytesRead + k }, (s.recvBuf.drop s.bytesRead).take k, w)
-    if s.recvBuf.length - s.bytesRead = 0 then
-      match s.readNextFrame w with
-      | .error e => .error e
-      | .ok (s1, w1) => .ok (step s1 w1)
-    else .ok (step s w)
+    let k := min n (s.recvBuf.length - s.bytesRead)
+    .ok ({ s with bytesRead := s.bytesRead + k }, (s.recvBuf.drop s.bytesRead).take k)
 
 def Stream.endMessageRead (s : Stream) : Except Err Stream :=
   if !s.inMessage then .error .state
